@@ -301,7 +301,9 @@ def check(run: Run) -> None:
                         "in-degree/consumer updates, every edge-producing source kind ranked (shared with C01.a, C01.b)"):
         from . import c01
         sub = Run("C06", run.tier, run.tree, quiet=True)
-        c01.check(sub)
+        sub.is_sub = True
+        if not getattr(run, "is_sub", False):
+            c01.check(sub)
         run.evaluations += sub.evaluations
         run.count(1, "C06.e")
         for f in sub.findings:
